@@ -8,7 +8,7 @@ the matrix dimension.  set_dist / set_pred are replaced by their (C08-proved) co
 from vlib.engine import Contract, Job, Known
 
 TUS = ['smt/arith/dl/idl_theory.cpp', 'smt/theory.cpp']
-ABS = {'smt::sat_core': ['assigns'], 'smt::theory': ['sat', 'cnfl'], 'smt::idl_theory': ['n_vars', '_dists', '_preds', 'dist_constr', 'dist_constrs'],
+ABS = {'smt::sat_core': ['assigns'], 'smt::theory': ['sat', 'cnfl'], 'smt::idl_theory': ['n_vars', '_dists', '_preds', 'dist_constr', 'dist_constrs', 'layers', 'listening'],
        'smt::idl_theory::idl_distance': ['b', 'from', 'to', 'dist'], 'smt::idl_value_listener': []}
 SETD = 'smt_idl_theory_set_dist__U__U__I'
 SETP = 'smt_idl_theory_set_pred__U__U__U'
@@ -16,9 +16,9 @@ REC = 'smt_theory_record__vec_lit'
 OLD = lambda e: '__CPROVER_old(%s)' % e
 
 C_SETD = Contract(requires=['*from < XT_N && *to < XT_N', 'self->_dists.e[*from].e[*to] > *dist'],
-                  ensures=[('only_the_entry_changes', 'spa_D_eq_except(%s, self->_dists, *from, *to, *dist)' % OLD('self->_dists'))], assigns='self->_dists')
+                  ensures=[('only_the_entry_changes', 'spa_D_eq_except(%s, self->_dists, *from, *to, %s)' % (OLD('self->_dists'), OLD('*dist')))], assigns='self->_dists')
 C_SETP = Contract(requires=['*from < XT_N && *to < XT_N'],
-                  ensures=[('only_the_entry_changes', 'spa_P_eq_except(%s, self->_preds, *from, *to, *pred)' % OLD('self->_preds'))], assigns='self->_preds')
+                  ensures=[('only_the_entry_changes', 'spa_P_eq_except(%s, self->_preds, *from, *to, %s)' % (OLD('self->_preds'), OLD('*pred')))], assigns='self->_preds')
 C_REC = Contract(requires=['1'], ensures=['1'], assigns='')
 
 
@@ -27,7 +27,8 @@ def jobs(tier):
     N = 4
     d = {'U_BITS': 8, 'I_BITS': 8, 'WIDE_BITS': 16, 'XT_N': N, 'XT_R': 3} if tier == 'quick' else {'U_BITS': 16, 'I_BITS': 16, 'XT_N': N}
     caps = {'vec_vec_I': N, 'vec_I': N, 'vec_vec_U': N, 'vec_U': N, 'vec_pair_U_U': 2 + 4 * N + 2 * N * N, 'map_pair_U_U_vec_idl_distancep': 1,
-            'vec_idl_distancep': 1, 'map_pair_U_U_idl_distancep': 1, 'vec_lit': 2, 'vec_us': 2}
+            'vec_idl_distancep': 1, 'map_pair_U_U_idl_distancep': 1, 'vec_lit': 2, 'vec_us': 2, 'vec_layer': 1, 'map_pair_U_U_I': 1, 'map_pair_U_U_U': 1,
+            'umap_U_set_idl_value_listenerp': 1, 'set_idl_value_listenerp': 1}
     c = Contract(
         requires=['__CPROVER_is_fresh(from, sizeof(*from)) && __CPROVER_is_fresh(to, sizeof(*to)) && __CPROVER_is_fresh(dist, sizeof(*dist))',
                   '__exc == 0 && self->n_vars == XT_N && spa_shape(self->_dists, self->_preds)', 'spa_range(self->_dists)', 'spa_closed(self->_dists)',
@@ -35,7 +36,7 @@ def jobs(tier):
                   'self->_dists.e[*from].e[*to] > *dist', 'self->_dists.e[*to].e[*from] == XT_INF || self->_dists.e[*to].e[*from] + *dist >= 0',
                   'self->dist_constrs.n == 0 && self->base_theory.cnfl.n == 0',
                   'spa_E_shape(xt_E) && spa_edges_respected(self->_dists, xt_E) && spa_pred_ok(self->_dists, self->_preds, xt_E)',
-                  '(xt_E.e[*from].e[*to] == XT_INF || xt_E.e[*from].e[*to] > *dist)'],
+                  '(xt_E.e[*from].e[*to] == XT_INF || xt_E.e[*from].e[*to] > *dist)', 'spa_rec(self->_dists, self->_preds, xt_E, *from, *to, *dist)'],
         ensures=[('noexcept', '__exc == 0'),
                  ('distances_are_the_exact_closure', 'spa_is_closure_step(%s, self->_dists, *from, *to, *dist)' % OLD('self->_dists')),
                  ('still_closed', 'spa_closed(self->_dists)'),
@@ -44,10 +45,29 @@ def jobs(tier):
                  ('nothing_learnt_without_registered_constraints', 'self->base_theory.cnfl.n == 0')],
         assigns='__exc, self->_dists, self->_preds, self->base_theory.cnfl')
     out.append(Job('idl.propagate_edge', 'smt_idl_theory_propagate__U__U__I', tus=TUS, contract=c, defines=d, unwind=N + 2, model_unwind=max(2 + 4 * N + 2 * N * N, 12) + 1,
-                   spec_headers=['dl_apsp_spec.h'], callee_contracts={SETD: C_SETD, SETP: C_SETP, REC: C_REC}, replace=[SETD, SETP, REC], exceptions=True,
+                   spec_headers=['dl_apsp_spec.h'], callee_contracts={REC: C_REC, 'smt_idl_value_listener_idl_value_change__U': C_REC}, replace=[REC, 'smt_idl_value_listener_idl_value_change__U'], exceptions=True,
                    caps=caps, abstract_fields=ABS, timeout=3000, mem_gb=32, solver='cadical', loop_unwind={6: 2 + 4 * N + 2 * N * N + 2},
                    # the theory object is owned by the harness so that 'no registered constraints' is a concrete fact for symbolic execution
-                   harness='void xt_harness(void)\n{\n  xt_init_globals();\n  struct smt_idl_theory th; th.dist_constrs.n = 0; th.base_theory.cnfl.n = 0;\n  { struct vec_vec_I ge; xt_E = ge; }\n  U_t *from; U_t *to; I_t *dist;\n  smt_idl_theory_propagate__U__U__I(&th, from, to, dist);\n}\n',
+                   harness='void xt_harness(void)\n{\n  xt_init_globals();\n  struct smt_idl_theory th; th.dist_constrs.n = 0; th.base_theory.cnfl.n = 0; th.layers.n = 0; th.listening.n = 0;   /* root level, no listeners: set_dist/set_pred run inline */\n  { struct vec_vec_I ge; xt_E = ge; }\n  U_t *from; U_t *to; I_t *dist;\n  smt_idl_theory_propagate__U__U__I(&th, from, to, dist);\n}\n',
                    force_types=['std::vector<std::vector<long>>', 'std::vector<std::vector<unsigned long>>'],
+                   replay={'driver': 'dl', 'stanza': '''  const int n = XT_N; sat_core sat; long xinf = %s;
+  idl_theory *th = build_idl(sat, n, xinf);
+  std::vector<std::vector<I>> D0 = th->_dists;
+  size_t from = S[1], to = S[2]; I dist = S[3];
+  th->propagate(from, to, dist);
+  // oracle: exact closure step, and predecessors as last hops of shortest paths w.r.t. the ghost edges (base 300)
+  std::vector<std::vector<I>> E(n, std::vector<I>(n));
+  for (int i = 0; i < n; i++) for (int j = 0; j < n; j++) E[i][j] = (S[300 + i * n + j] == xinf) ? idl_theory::inf() : S[300 + i * n + j];
+  E[from][to] = dist;
+  std::string why;
+  for (int i = 0; i < n; i++) for (int j = 0; j < n; j++) {
+    I best = D0[i][j];
+    if (D0[i][from] != idl_theory::inf() && D0[to][j] != idl_theory::inf() && D0[i][from] + dist + D0[to][j] < best) best = D0[i][from] + dist + D0[to][j];
+    if (th->_dists[i][j] != best) { ok = false; why += " D[" + std::to_string(i) + "][" + std::to_string(j) + "] is not the closure;"; }
+    if (i != j && th->_dists[i][j] != idl_theory::inf()) {
+      size_t k = th->_preds[i][j];
+      if (k >= (size_t)n || k == (size_t)j || E[k][j] == idl_theory::inf() || th->_dists[i][k] == idl_theory::inf() || th->_dists[i][j] != th->_dists[i][k] + E[k][j]) { ok = false; why += " pred[" + std::to_string(i) + "][" + std::to_string(j) + "]=" + std::to_string(k) + " is not the last hop of a shortest path;"; } } }
+  observed = show_matrix(th->_dists, n) + why; required = "closure of the old matrix plus the edge; predecessors = last hops";
+''' % ('62' if tier == 'quick' else '16382')},
                    bounded='%d time points; finite weights in [-3, 3] (quick) / [-8, 8] plus the inf() sentinel; no registered undecided constraints (the re-propagation loop is empty)' % N))
     return out
